@@ -205,11 +205,57 @@ theorem C11_commit_scan (pre : List (Bytes × List (Int × Int))) (t : Bytes) (p
     rw [hz px (hpre (tx, px) (by simp))]
     exact ih (fun y hy => hpre y (by simp [hy]))
 
+/-- every topic and partition of the responses is one the consumer asked for (what a conforming broker sends) -/
+def Requested (c : Consumer) (resps : List FetchResponse) : Prop :=
+  ∀ t ∈ (resps.flatMap fun r => r.topics), ∃ tr, topicRef c.assignments t.topic = some tr ∧
+    ∀ p ∈ t.partitions, (assocGet c.fetchOffsets (⟨tr, p.partition⟩ : TP)).isSome = true
+
+theorem preScan_requested (c : Consumer) : ∀ (ts : List FetchTopic),
+    (∀ t ∈ ts, ∃ tr, topicRef c.assignments t.topic = some tr ∧
+      ∀ p ∈ t.partitions, (assocGet c.fetchOffsets (⟨tr, p.partition⟩ : TP)).isSome = true) →
+    ts.findSome? (preScanTopic c) =
+      ((ts.flatMap fun t => t.partitions).findSome? partErr).map Err.kafka := by
+  intro ts
+  induction ts with
+  | nil => intro _; rfl
+  | cons t r ih =>
+    intro h
+    obtain ⟨tr, htr, hps⟩ := h t (by simp)
+    have hrest := ih (fun t' ht' => h t' (by simp [ht']))
+    simp only [List.findSome?_cons, List.flatMap_cons, List.findSome?_append]
+    have ht : preScanTopic c t = (t.partitions.findSome? partErr).map Err.kafka := by
+      unfold preScanTopic
+      simp only [htr]
+      generalize t.partitions = ps at hps
+      induction ps with
+      | nil => rfl
+      | cons p ps ihp =>
+        simp only [List.findSome?_cons]
+        cases hd : p.data with
+        | error k => simp [partErr, hd]
+        | ok v =>
+          simp only [hps p (by simp), if_true, partErr, hd]
+          exact ihp (fun q hq => hps q (by simp [hq]))
+    rw [ht, hrest]
+    cases t.partitions.findSome? partErr with
+    | some k => simp
+    | none => simp
+
 /-- fetch / poll: the first partition error in response order fails the poll; nothing of that response is delivered -/
-theorem C11_poll (resps : List FetchResponse) (c : Int) (h : firstError resps = some c) {σ : Type} (w : WC σ) (n : Nat) :
+theorem C11_poll (resps : List FetchResponse) (c : Int) (h : firstError resps = some c) {σ : Type} (w : WC σ) (n : Nat)
+    (hreq : Requested w.cons resps) :
     (processResponses n resps w).2 = .err (.kafka c) ∧ (processResponses n resps w).1 = w := by
+  have hp : preScan w.cons resps = some (.kafka c) := by
+    unfold preScan
+    rw [preScan_requested w.cons _ hreq]
+    unfold firstError at h
+    have : (resps.flatMap fun r => r.topics.flatMap fun t => t.partitions) = ((resps.flatMap fun r => r.topics).flatMap fun t => t.partitions) := by
+      rw [List.flatMap_assoc]
+    rw [this] at h
+    rw [h]
+    rfl
   unfold processResponses
-  simp [h]
+  simp [hp]
 
 /-- a partition that carried an error code exposes no messages, whatever data came with it -/
 theorem C11_fetch_no_data (p : FetchPartition) (c : Int) (h : p.data = .error c) (t : Bytes) :
